@@ -523,6 +523,10 @@ class BaseNetQASMConnection(abc.ABC):
 
         subroutine = self._builder.subrt_compile_subroutine(protosubroutine)
 
+        # Like after a flush: the compiled operations are no longer pending,
+        # so their arrays and registers should not be declared and returned again.
+        self._builder._reset()
+
         return subroutine
 
     def commit_protosubroutine(
